@@ -499,7 +499,8 @@ def rule_own_cell_miss(chk, ci, concrete):
 def rule_update(chk, ci, concrete):
     t = M.cy(NB)
     nn = M.find_class(t, 'NNPS')
-    up = M.find_func(nn, 'update')
+    # helpers a maintainer has split update() into (`_update_caches()`) are written back in place; the steps the rules name stay calls
+    up = M.self_aliases_inlined_deep(M.inline_helpers(nn, M.find_func(nn, 'update'), keep=set(['_compute_bounds', '_refresh', '_bin', '_compute_cell_size']) | set(n_ for n_ in M.methods(nn) if not n_.startswith('_'))))
     g = C.build_cfg(up)
 
     def nodes(pred):
@@ -2373,7 +2374,9 @@ def rule_cell_size(chk):
                func='CPUDomainManager.update', detail_bad='cell size is not recomputed on every domain update', detail_ok='first statement of update()')
     nn = M.find_class(t, 'NNPS')
     u2 = M.find_func(nn, 'update')
-    chk.decide('self.cell_size=domain.manager.cell_size' in compact(u2), 'cell-size-covers-every-array', 'nnps-uses-domain-cell-size', node=u2, file=NB, func='NNPS.update',
+    ld2 = N.local_defs([u2])
+    cs_vals = [compact(N.inline(a_.value, ld2)) for a_ in ast.walk(u2) if isinstance(a_, ast.Assign) and compact(a_.targets[0]) == 'self.cell_size']
+    chk.decide(bool(cs_vals) and all(v_ == 'self.domain.manager.cell_size' for v_ in cs_vals), 'cell-size-covers-every-array', 'nnps-uses-domain-cell-size', node=u2, file=NB, func='NNPS.update',
                detail_bad='NNPS.update does not take the cell size computed by the domain manager', detail_ok='self.cell_size = domain.manager.cell_size')
     w = M.find_class(t, 'NNPSParticleArrayWrapper')
     gp = M.find_func(w, 'get_number_of_particles')
